@@ -38,7 +38,7 @@ func init() {
 		Level: "exploration",
 		Rule: "inputs are all sequences of up to k atoms from the text alphabet (mode switches, directive names and prefixes, CRLF, UTF-8, quotes) and from the lexeme alphabet, the lexeme sequences again behind 11 leading byte sequences (byte order marks, NUL and control bytes, zero-width and non-breaking spaces, line separators), plus seeded random atom strings up to 400 bytes; " +
 			"every input is lexed by the real lexer and each token is compared with an independent (line, column) <-> offset table: order, no overlap, start/end = first/last byte, covered bytes = token text, gaps = whitespace in code or comments, " +
-			"EOF just past the last byte, lexer counters (verif hook) = table, and Position.Contains for every cursor of the input. round 8: comment alphabet to six atoms; scale: tokens to 1 MiB; distinct_nontrivial = distinct inputs (by hash) with at least 2 tokens before EOF",
+			"EOF just past the last byte, lexer counters (verif hook) = table, and Position.Contains for every cursor of the input. round 8: comment alphabet to six atoms; scale: tokens to 1 MiB; round 10: lone CR in comments; distinct_nontrivial = distinct inputs (by hash) with at least 2 tokens before EOF",
 		Assumptions: []string{
 			"the token stream is considered to end at the first ILLEGAL token (the parser stops there; the lexer does not advance past it)",
 			"exhaustive only up to the stated number of atoms over the stated alphabets; random beyond",
